@@ -300,22 +300,45 @@ type burst struct {
 	done int64
 }
 
-// tick paces the clients: after every capunit/2 requests nothing new is sent for 2 ms, so that two
-// rotations of one file never fall into the same millisecond (lumberjack names a backup by the
-// time to the millisecond)
-func (w *world) tick() {
+// tick paces the clients: whenever requests good for capunit/2 entries in one file have been sent,
+// nothing new is sent for 2 ms, so that two rotations of one file never fall into the same
+// millisecond (lumberjack names a backup by the time to the millisecond; a second rotation in the
+// same millisecond overwrites the first backup). weight = the entries the request can add to one file.
+func (w *world) tick(weight int) {
 	w.pace.Lock()
-	w.nsent++
-	if w.nsent%(w.h.CapUnit/2) == 0 {
+	w.nsent += weight
+	if w.nsent >= w.h.CapUnit/2 {
+		w.nsent = 0
 		time.Sleep(2 * time.Millisecond)
 	}
 	w.pace.Unlock()
 }
 
+// weightOf returns the largest number of entries one request to the site can add to one file under
+// any of the configurations that may answer it.
+func (w *world) weightOf(cfgs []string, site int, isErr bool) int {
+	max := 1
+	for _, c := range cfgs {
+		if site >= len(w.h.Table[c]) {
+			continue
+		}
+		per := map[string]int{}
+		for _, sk := range w.h.Table[c][site] {
+			if sk.Kind == "log" || isErr {
+				per[sk.File]++
+				if per[sk.File] > max {
+					max = per[sk.File]
+				}
+			}
+		}
+	}
+	return max
+}
+
 // startBurst sends `total` requests from the clients to the given sites (0-based); errSites may be
 // sent requests that fail in the handler (an error-log entry); slow = every so-manyth request sleeps
 // in the handler; giveUp = a refused connection ends the client's share (the instance is being stopped).
-func (w *world) startBurst(total int, sites []int, errSites map[int]bool, slowEvery, slowMs int, giveUp bool) *burst {
+func (w *world) startBurst(cfgs []string, total int, sites []int, errSites map[int]bool, slowEvery, slowMs int, giveUp bool) *burst {
 	b := &burst{}
 	var ticket int64
 	for c := 0; c < w.nClients; c++ {
@@ -333,8 +356,8 @@ func (w *world) startBurst(total int, sites []int, errSites map[int]bool, slowEv
 				if n > total {
 					return
 				}
-				w.tick()
 				site := sites[(n+c)%len(sites)]
+				w.tick(w.weightOf(cfgs, site, errSites[site] && n%3 == 0))
 				w.mu.Lock()
 				w.seq[c]++
 				id := fmt.Sprintf("c%02d-q%05d", c, w.seq[c])
@@ -624,7 +647,7 @@ func (w *world) expectedSinks(ri respInfo) []int {
 // and the obs event.
 func (w *world) account(final bool) {
 	if final {
-		w.settle(60 * time.Millisecond)
+		w.settle(100 * time.Millisecond)
 	} else {
 		w.settle(2 * time.Millisecond)
 	}
@@ -646,6 +669,12 @@ func (w *world) account(final bool) {
 		type ent struct {
 			key     string
 			g, s, i int
+			late    bool
+		}
+		// may the entry of this request have been written after its logger's Close?
+		mayBeLate := func(id string) bool {
+			_, answered := w.resp[id]
+			return w.h.Grace || !answered || w.retried[id]
 		}
 		var found []ent
 		minFound := map[int]int{} // client -> smallest sequence number still in the file
@@ -697,7 +726,7 @@ func (w *world) account(final bool) {
 					w.bad("no-line-duplicated", "%s holds the entry of %s for sink s%d i%d twice", f, r.id, s, i)
 				}
 				if !w.seen[k] && (foundNow[k] == 1 || w.retried[r.id]) {
-					found = append(found, ent{k, g, s, i})
+					found = append(found, ent{k, g, s, i, mayBeLate(r.id)})
 				}
 			}
 		}
@@ -732,7 +761,7 @@ func (w *world) account(final bool) {
 				if w.seen[k] || foundNow[k] > 0 {
 					continue
 				}
-				missing = append(missing, ent{k, ri.gen, ri.site + 1, i + 1})
+				missing = append(missing, ent{k, ri.gen, ri.site + 1, i + 1, mayBeLate(id)})
 				w.seen[k] = true
 				c, q, _ := parseID([]byte(id))
 				if isRaw(f) || len(o.chain) == 1 {
@@ -748,11 +777,11 @@ func (w *world) account(final bool) {
 			if isRaw(f) {
 				ev = "wdrop"
 			}
-			phase = append(phase, event{"ev": ev, "g": e.g, "s": e.s, "i": e.i, "f": f, "gone": true})
+			phase = append(phase, event{"ev": ev, "g": e.g, "s": e.s, "i": e.i, "f": f, "late": e.late, "gone": true})
 		}
 		for _, e := range found {
 			w.seen[e.key] = true
-			phase = append(phase, event{"ev": "w", "g": e.g, "s": e.s, "i": e.i, "f": f})
+			phase = append(phase, event{"ev": "w", "g": e.g, "s": e.s, "i": e.i, "f": f, "late": e.late})
 		}
 		bks := []int{}
 		for _, part := range o.chain[:len(o.chain)-1] {
@@ -913,7 +942,7 @@ func runHistory(t *testing.T, h hcase, seed int64, tr int, selfDrop bool) outcom
 			if h.Grace {
 				slowMs = 200
 			}
-			during = w.startBurst(burstSize(), sites, errs, 5, slowMs, o.T == "stop")
+			during = w.startBurst(cfgs, burstSize(), sites, errs, 5, slowMs, o.T == "stop")
 			// let it get under way
 			for i := 0; i < 2000 && atomic.LoadInt64(&during.done) < 3; i++ {
 				time.Sleep(100 * time.Microsecond)
@@ -977,7 +1006,7 @@ func runHistory(t *testing.T, h hcase, seed int64, tr int, selfDrop bool) outcom
 		w.emit(obsEv)
 		if w.inst != nil {
 			sites, errs := sitesOf(w.genCfg[w.curGen])
-			after := w.startBurst(burstSize(), sites, errs, 0, 0, false)
+			after := w.startBurst([]string{w.genCfg[w.curGen]}, burstSize(), sites, errs, 0, 0, false)
 			after.wg.Wait()
 		}
 		w.account(oi == len(ops)-1)
@@ -1005,7 +1034,9 @@ func runHistory(t *testing.T, h hcase, seed int64, tr int, selfDrop bool) outcom
 // fixed histories run with every seed: the two situations the repair of logger.go is about, the
 // same with the rolling writer, and a reload onto other settings for a shared file
 func fixedHistories(table map[string][][]sink, capUnit int) []hcase {
-	mk := func(grace bool, ops ...op) hcase { return hcase{Ops: ops, Table: table, CapUnit: capUnit, Grace: grace} }
+	mk := func(grace bool, ops ...op) hcase {
+		return hcase{Ops: ops, Table: table, CapUnit: capUnit, Grace: grace}
+	}
 	return []hcase{
 		mk(false, op{"start", "raw2", "none"}, op{"reload", "raw2", "late"}, op{"usr1", "rawf", "late"}, op{"stop", "-", "none"}),
 		mk(true, op{"start", "raw", "none"}, op{"reload", "raw", "none"}, op{"stop", "-", "none"}),
@@ -1062,7 +1093,7 @@ func TestCx20LogSink(t *testing.T) {
 	}
 	tw := hx.NewTrace(t, "logsink.ndjson")
 	defer tw.Close()
-	ntr, nreq, nretried := 0, 0, 0
+	ntr, nreq, nretried, nambig := 0, 0, 0, 0
 	rnd := hx.Rand()
 	var selfTrace []event
 	for ci, h := range cases {
@@ -1097,7 +1128,8 @@ func TestCx20LogSink(t *testing.T) {
 			}
 		}
 		if out.ambig != "" {
-			res.AddExtra("logsink_ambiguous_traces", out.ambig)
+			nambig++
+			res.AddExtra("logsink_ambiguous_example", h.key()+": "+out.ambig)
 			continue
 		}
 		for _, e := range out.events {
@@ -1111,6 +1143,7 @@ func TestCx20LogSink(t *testing.T) {
 	res.AddExtra("logsink_requests", nreq)
 	res.AddExtra("logsink_requests_sent_again", nretried)
 	res.AddExtra("logsink_histories", len(cases))
+	res.AddExtra("logsink_traces_not_written_ambiguous", nambig)
 	tw.Close()
 	if ntr > 0 {
 		res.Traces = append(res.Traces, hx.TraceFile{Spec: "logsink", File: tw.Path, Count: ntr})
